@@ -387,6 +387,13 @@ pub fn c07_post(progs: &[Prog], reports: &[serde_json::Value]) -> Vec<(usize, se
                 bad = Some((is, format!("with every callback using 256 KiB of stack: {}! {}, {}! {}, {}! {}", progs[ip].mac, dp, progs[is].mac, ds, progs[ia].mac, da)));
             }
         }
+        if bad.is_none() {
+            let (np, ns, na) = (&rp["c07"]["named"], &rs["c07"]["named"], &ra["c07"]["named"]);
+            let timeout = |v: &serde_json::Value| v == "timeout";
+            if !(timeout(np) || timeout(ns) || timeout(na)) && (np != ns || ns != na) {
+                bad = Some((is, format!("evaluated on a thread with a long non-ASCII name: {}! {}, {}! {}, {}! {}", progs[ip].mac, np, progs[is].mac, ns, progs[ia].mac, na)));
+            }
+        }
         if bad.is_none() && (rp["c07"]["gated"] != rs["c07"]["gated"] || rs["c07"]["gated"] != ra["c07"]["gated"]) {
             bad = Some((
                 is,
@@ -426,7 +433,15 @@ fn c07(tier: &str, seed: u64) -> GridCheck {
     cfg.recover = 0.6;
     let count = if tier == "quick" { 200 } else { 2000 };
     let mut progs = Vec::new();
-    let base = sample(seed, 0x0700, count, &cfg, &|i| Some(CLASSES[i % 4][0]));
+    let mut base = sample(seed, 0x0700, count, &cfg, &|i| Some(CLASSES[i % 4][0]));
+    // wide programs: two-digit branch indices (thread names, per-branch result names, tuple positions)
+    let mut wide = cfg.clone();
+    wide.n = (11, 16);
+    wide.depth = (1, 2);
+    wide.cell = (0, 1);
+    wide.wrappers = 0.0;
+    wide.equal_depths = 0.4;
+    base.extend(sample(seed, 0x0701, if tier == "quick" { 12 } else { 80 }, &wide, &|i| Some(CLASSES[i % 4][0])));
     for p in base {
         let class = CLASSES.iter().find(|c| c[0] == p.mac).unwrap();
         for m in class {
@@ -440,7 +455,7 @@ fn c07(tier: &str, seed: u64) -> GridCheck {
     c.post = Some(c07_post);
     c.batch_size = 480;
     c.budget = if tier == "quick" { 64 } else { 256 };
-    c.rule = "programs: random grid programs (values Send + 'static, branches do not communicate), each rendered under the three macro names of its class {plain, spawn, alias}; inputs: the same enumerated / sampled failure plans for all three. Oracle (metamorphic, no model involved): equal results across the three; equal per-branch callback sequences between plain and spawn (except in a failing step of a try-async macro); alias and canonical spawn macro equal in result, callback sequences, thread-name signature (sync) and first-poll arrival count (async: spawned vs not spawned); the all-succeed run repeated in a child process with every callback using 256 KiB of stack completes under all three names or under none; the expected result type is ascribed, so an alias wired to the wrong configuration fails to compile. A run is one (program, macro name, plan); non-trivial = >=2 branches and a multi-branch step".to_string();
+    c.rule = "programs: random grid programs (values Send + 'static, branches do not communicate), each rendered under the three macro names of its class {plain, spawn, alias}, a few of them wide (11-16 branches); inputs: the same enumerated / sampled failure plans for all three. Oracle (metamorphic, no model involved): equal results across the three; equal per-branch callback sequences between plain and spawn (except in a failing step of a try-async macro); alias and canonical spawn macro equal in result, callback sequences, thread-name signature (sync) and first-poll arrival count (async: spawned vs not spawned); the all-succeed run repeated in a child process with every callback using 256 KiB of stack completes under all three names or under none; the all-succeed run on a calling thread with a long non-ASCII name gives the same outcome and callback set under all three; the expected result type is ascribed, so an alias wired to the wrong configuration fails to compile. A run is one (program, macro name, plan); non-trivial = >=2 branches and a multi-branch step".to_string();
     c
 }
 
@@ -583,7 +598,14 @@ fn c16_progs(seed: u64, count: usize, fx: bool) -> Vec<Prog> {
             }
         } else if !kind.is_async {
             match variant {
-                0 | 2 => opts.joiner = Some("jv_join".into()),
+                2 => {
+                    // explicit lazy_branches(false): the branch expressions themselves go to the threads
+                    // (every step ends in `-> defer`); all branches active in every step
+                    opts.lazy = Some(false);
+                    cfg.equal_depths = 1.0;
+                    cfg.n = (2, 6);
+                }
+                0 => opts.joiner = Some("jv_join".into()),
                 1 => {
                     opts.joiner = Some("jv_join".into());
                     opts.lazy = Some(true);
@@ -629,6 +651,16 @@ fn c16_progs(seed: u64, count: usize, fx: bool) -> Vec<Prog> {
             break;
         }
         let mut p = p.expect("program");
+        if kind.is_spawn && !kind.is_async && opts.lazy == Some(false) {
+            // `-> defer` must follow the step's last action at the top level
+            for b in p.branches.iter_mut() {
+                for cell in b.steps.iter_mut() {
+                    if let Some(a) = cell.last_mut() {
+                        a.closed = true;
+                    }
+                }
+            }
+        }
         // a random order of the options that are present
         let mut order: Vec<u8> = vec![0, 1, 2, 3];
         let r = i / 3;
@@ -654,7 +686,7 @@ fn c16(tier: &str, seed: u64, fx: bool) -> GridCheck {
     c.rule = if fx {
         "futures-path stage: random grid programs under the six async macro names with `futures_crate_path(::jvrt::fx)` (a stand-in whose join! / try_join! log their use), compiled in a crate that has NO dependency called `futures`, so any hard-coded `::futures` path fails to compile; oracle: the shim's join!/try_join! is used exactly once per executed step with more than one active branch, and the value is the model's. Non-trivial = a multi-step program with a single-active step, or >= 2 options".to_string()
     } else {
-        "runtime stage: random grid programs (1-6 branches, 1-3 steps, differing depths incl. single-active steps) under the eight macro kinds with an option prefix legal for the kind, options written in rotated / reversed orders: sync - eager logging joiner, lazy joiner (receives closures, calls them in reverse order) with lazy_branches(true), self-transposing joiner with transpose_results(false) (single-step programs), explicit defaults only; thread-spawning - joiner passing the thread handles through, with / without explicit lazy_branches(true); async / task-spawning - joiners wrapping join! / try_join! that tag each output, explicit transpose_results(false) / lazy_branches(false) / futures_crate_path(::futures). Inputs: enumerated / sampled failure plans. Oracle: the joiner is invoked exactly once per executed step with more than one active branch, with that arity, never for a single active branch; every argument is evaluated once; with lazy_branches(true) everything a branch does happens while the joiner calls that branch's thunk (nothing earlier); the values that continue carry the joiner's position tags, so argument p was the p-th active branch and the joiner's output was used; the macro's value is the model's - so explicit defaults behave like omitted options. Non-trivial = >= 2 options, or an option together with a single-active step".to_string()
+        "runtime stage: random grid programs (1-6 branches, 1-3 steps, differing depths incl. single-active steps) under the eight macro kinds with an option prefix legal for the kind, options written in rotated / reversed orders: sync - eager logging joiner, lazy joiner (receives closures, calls them in reverse order) with lazy_branches(true), self-transposing joiner with transpose_results(false) (single-step programs), explicit defaults only; thread-spawning - joiner passing the thread handles through, with / without explicit lazy_branches(true), explicit lazy_branches(false) (every step of every branch then ends in `-> defer`, a closure returning the value, which the macro has to hand to the thread as it is); async / task-spawning - joiners wrapping join! / try_join! that tag each output, explicit transpose_results(false) / lazy_branches(false) / futures_crate_path(::futures). Inputs: enumerated / sampled failure plans. Oracle: the joiner is invoked exactly once per executed step with more than one active branch, with that arity, never for a single active branch; every argument is evaluated once; with lazy_branches(true) everything a branch does happens while the joiner calls that branch's thunk (nothing earlier); the values that continue carry the joiner's position tags, so argument p was the p-th active branch and the joiner's output was used; the macro's value is the model's - so explicit defaults behave like omitted options. Non-trivial = >= 2 options, or an option together with a single-active step".to_string()
     };
     c
 }
